@@ -53,6 +53,15 @@ class FillerRng(env.ScriptedRng):
 
 
 def lp_hasher(fmt, rounds):
+    if rounds is None:
+        # the default-configured hasher: constructed without a cost
+        import importlib
+
+        mod, cls = {"sha256_crypt": ("sha_crypt", "SHA256Hasher"), "sha512_crypt": ("sha_crypt", "SHA512Hasher"),
+                    "pbkdf2_sha256": ("pbkdf2", "PBKDF2SHA256Handler"), "pbkdf2_sha512": ("pbkdf2", "PBKDF2SHA512Handler"),
+                    "bcrypt": ("bcrypt", "BcryptHasher"), "bcrypt_sha256": ("bcrypt", "BcryptSHA256Hasher")}[fmt]
+        K = getattr(importlib.import_module("libpass.hashers." + mod), cls)
+        return K()
     if fmt == "sha256_crypt":
         from libpass.hashers.sha_crypt import SHA256Hasher
 
@@ -246,6 +255,12 @@ def eval_fresh(case):
             out.append((f"C20|{fmt}|identify:own_format_rejected:fresh", f"libpass {fmt} hasher does not identify its fresh {h!r}"))
         if lp.needs_update(h) is not False:
             out.append((f"C20|{fmt}|needs_update:own_fresh_hash:true", f"libpass {fmt} hasher at cost {rounds} asks to update its fresh {h!r}"))
+        if rounds is None:
+            # a second default-configured hasher object, and the text given as bytes
+            lp2 = lp_hasher(fmt, None)
+            if lp2.needs_update(h) is not False or lp2.needs_update(h.encode("ascii")) is not False or lp2.verify(h, p) is not True:
+                out.append((f"C20|{fmt}|needs_update:own_fresh_hash:true:second_default_object",
+                            f"another default-configured libpass {fmt} hasher asks to update / rejects the fresh {h!r}"))
     except Exception as e:  # noqa: BLE001
         out.append((f"C20|{fmt}|identify_or_needs_update:raises:{_exc(e)}", f"on the fresh {h!r}: {e!r}"))
     return out
@@ -578,6 +593,9 @@ def run(ctx):
         for pl, p in few_passwords(fmt, seed):
             for r in rounds_for(fmt, True)[:3]:
                 cases.append({"part": "fresh", "fmt": fmt, "password": p, "rounds": r, "pclass": pl, "seed": seed})
+        # the default-configured hasher (no cost given: production cost), one password
+        pl, p = few_passwords(fmt, seed)[1]
+        cases.append({"part": "fresh", "fmt": fmt, "password": p, "rounds": None, "pclass": pl, "seed": seed})
     # identify matrix: sample hashes made here (self-contained cases carry the hash)
     n_id = 0
     with env.scripted_rng(FillerRng(seed)):
